@@ -55,7 +55,7 @@ var bigInts = []float64{65535, 1 << 31, 1 << 40, -(1 << 31)}
 var fracs = []float64{-2.5, -0.75, -0.5, 0.25, 0.5, 1.5, 2.25, 2.5, 3.75, 9.5, 10.5, 99.75, 1000000.5}
 
 // plain strings (ASCII letters/digits/space, mixed case, with shared prefixes and numeric-looking ones)
-var plainStrs = []string{"", "a", "b", "ab", "abc", "B", "Ab", "aB", "b a", "10", "9", "1", "x", "xy", "xyz", "Zed", "zed", "m-n", "m", "日本", "日", "→x"}
+var plainStrs = []string{"", "a", "b", "ab", "abc", "B", "Ab", "aB", "b a", "10", "9", "1", "1.0", "01", "1e0", "007", "7", "7.0", "x", "xy", "xyz", "Zed", "zed", "m-n", "m", "日本", "日", "→x"}
 
 // LIKE-hostile strings: regexp metacharacters, wildcards as data, newline
 var hostileStrs = []string{"(", "a(b", "a.b", "axb", "a*b", "a+", "[x]", "^a", "a$", "a|b", "{1}", "a?b", "50%", "a_b", "a%b", "a\nb", "A.B", "it's", "q?", "\\d"}
@@ -105,6 +105,17 @@ func genPool(t *rapid.T, kind string, hostile bool, nonZero bool, label string) 
 			}
 		case "bool":
 			pool = append(pool, rapid.Bool().Draw(t, l))
+		}
+	}
+	if kind == "str" {
+		// texts that denote the same number in different spellings are different strings: when one is in
+		// the pool, its twin often is too
+		twins := map[string][]string{"1": {"1.0", "01", "1e0"}, "1.0": {"1"}, "01": {"1"}, "1e0": {"1", "1.0"}, "7": {"007", "7.0"}, "007": {"7"}, "7.0": {"7", "007"}, "10": {"1e1"}}
+		for _, v := range pool {
+			if tw, ok := twins[v.(string)]; ok && rapid.Bool().Draw(t, label+".twin") {
+				pool = append(pool, rapid.SampledFrom(tw).Draw(t, label+".twinval"))
+				break
+			}
 		}
 	}
 	return pool
